@@ -47,9 +47,10 @@ def race_stage(ctx, cfg):
 def summarise(ctx, cfg):
     """evidence: how many schedules of the LTS were replayed on / validated against the real goroutines"""
     k = ctx.cov["components"].get("co", {}).get("op_kinds", {})
-    ctx.cov["traces_validated_against_impl"] = {
+    ctx.cov["traces_validated_breakdown"] = {
         "two_phase_next_replays (consumer parked between q.next() and the select)": k.get("nresume", 0),
         "really_blocked_consumer_wakeups (nrelease)": k.get("nrelease", 0),
         "insert_split_into_atomic_sections (pcheck/pinsert/ppost/pins)": sum(k.get(x, 0) for x in ("pcheck", "pinsert", "ppost", "pins")),
         "free_running_concurrent_runs_with_trace_monitors": k.get("conc", 0),
     }
+    ctx.cov["traces_validated_against_impl"] = sum(ctx.cov["traces_validated_breakdown"].values())
